@@ -522,7 +522,7 @@ pub fn encode_json_value_to_metadatum(
             Ok(TransactionMetadatum::new_int(&Int::new(&x.into())))
         } else if let Some(x) = x.as_i64() {
             Ok(TransactionMetadatum::new_int(&Int::new_negative(
-                &(-x as u64).into(),
+                &x.unsigned_abs().into(),
             )))
         } else {
             Err(JsError::from_str("floats not allowed in metadata"))
